@@ -47,6 +47,19 @@ PrimOk(op, as) == \/ op \in {3, 4}
                   \/ (op \in {5, 6} /\ \A i \in 1..Len(as) : ~IsClo(as[i]))
                   \/ \A i \in 1..Len(as) : ~HasClo(as[i])
 
+Unk == <<"unk">>
+RECURSIVE PatNameSet(_)
+PatNameSet(p) == CASE p[1] = "pn" -> {} [] p[1] = "pv" -> {p[2]} [] p[1] = "pat" -> {p[2]} \cup PatNameSet(p[3]) [] p[1] = "pc" -> PatNameSet(p[2]) \cup PatNameSet(p[3])
+UnkEnv(names) == [n \in names |-> Unk]
+\* bind a pattern to an outcome: unknown or failed outcomes make every name of the pattern unknown
+SBindU(pat, o, rho) == IF o[1] = "ok" /\ ~HasClo(o[2]) THEN Bind(pat, o, EmptyEnv) @@ rho ELSE UnkEnv(PatNameSet(pat)) @@ rho
+\* a parameter list against an argument list of which some outcomes are unknown: what an unknown argument reaches is
+\* unknown, the rest is bound as usual (names beyond the arguments given are unknown)
+RECURSIVE SBindArgs(_, _, _, _)
+SBindArgs(pat, outs, i, rho) ==
+  IF pat[1] = "pc" /\ i <= Len(outs) THEN SBindArgs(pat[3], outs, i + 1, SBindU(pat[2], outs[i], rho))
+  ELSE UnkEnv(PatNameSet(pat)) @@ rho
+
 RECURSIVE SEval(_, _, _, _), SEvalList(_, _, _, _), SLetSeq(_, _, _, _, _), SAssign(_, _, _, _, _), SApply(_, _, _, _)
 
 SAssign(P, bs, body, rho, fuel) ==
@@ -108,6 +121,13 @@ SEval(P, e, rho, fuel) ==
                                     <<"thunk", e[3][CHOOSE i \in 1..Len(h[3]) : h[3][i] = n], rho>>], fuel - 1)
          ELSE IF h[1] # "defun" THEN Oom ELSE
          LET as == SEvalList(P, e[3], rho, fuel) IN
+         \* some arguments unknown, none failing (static scan only): the body is evaluated with those parameters unknown.
+         \* Its outcome then reads "if the call returns at all, it returns this" / "the call never returns a value" --
+         \* (logand (f X) ()) with f returning a pair whatever X is fails for every input
+         IF as[1] = "unk" /\ e[4][1] = "none" THEN
+            LET r == SEval(P, h[4], SBindArgs(h[3], [i \in 1..Len(e[3]) |-> SEval(P, e[3][i], rho, fuel)], 1, EmptyEnv), fuel - 1) IN
+            IF r[1] \in {"ok", "err"} THEN r ELSE Unk
+         ELSE
          IF as[1] # "ok" THEN as ELSE
          LET tl == IF e[4][1] = "none" THEN Ok(Nil) ELSE SEval(P, e[4], rho, fuel) IN
          IF tl[1] # "ok" THEN tl ELSE
@@ -159,12 +179,6 @@ AllBodies(P) == {P.body} \cup {P.helpers[i][4] : i \in {j \in 1..Len(P.helpers) 
 \* ... and subexpressions that fail for every input once the literals bound by enclosing let / assign forms (and passed
 \* to functions) are propagated: every occurrence of a subexpression is evaluated in its static environment, in which
 \* parameters have the outcome <<"unk">> (unknown) and let-bound names the outcome of their binding
-Unk == <<"unk">>
-RECURSIVE PatNameSet(_)
-PatNameSet(p) == CASE p[1] = "pn" -> {} [] p[1] = "pv" -> {p[2]} [] p[1] = "pat" -> {p[2]} \cup PatNameSet(p[3]) [] p[1] = "pc" -> PatNameSet(p[2]) \cup PatNameSet(p[3])
-UnkEnv(names) == [n \in names |-> Unk]
-\* bind a pattern to an outcome: unknown or failed outcomes make every name of the pattern unknown
-SBindU(pat, o, rho) == IF o[1] = "ok" /\ ~HasClo(o[2]) THEN Bind(pat, o, EmptyEnv) @@ rho ELSE UnkEnv(PatNameSet(pat)) @@ rho
 Fails(P, e, rho) == e[1] \notin {"lit", "var"} /\ SEval(P, e, rho, 20)[1] = "err"
 RECURSIVE Scan(_, _, _), ScanSeq(_, _, _, _), ScanAssign(_, _, _, _)
 ScanSeq(P, bs, body, rho) ==
